@@ -307,7 +307,18 @@ impl<'a> Sizer<'a> {
                     if ms.len() > 16 {
                         approximate = true;
                     }
-                    (0..(1u32 << k)).map(|mask| ms.iter().take(k).enumerate().fold(0i128, |acc, (i, v)| if mask >> i & 1 == 1 { acc | v } else { acc })).collect()
+                    let mut dom: Vec<i128> = (0..(1u32 << k)).map(|mask| ms.iter().take(k).enumerate().fold(0i128, |acc, (i, v)| if mask >> i & 1 == 1 { acc | v } else { acc })).collect();
+                    if ms.len() > k {
+                        // capped: add every tested bit at once (the maximum when the conditional blocks are independent)
+                        // and each of the remaining bits on top of nothing and of everything else
+                        let all = ms.iter().fold(0i128, |a, v| a | v);
+                        dom.push(all);
+                        for v in ms.iter().skip(k) {
+                            dom.push(*v);
+                            dom.push(all & !*v);
+                        }
+                    }
+                    dom
                 }
             };
             domains.push((var.clone(), di, dom));
